@@ -44,6 +44,13 @@ void vf_cover_hit(const char *label);
 #define VF_COVER(c, label)  do { if (c) vf_cover_hit(label); } while (0)
 #endif
 
+/* native replay: drop a harness-side copy of a pointer so that LeakSanitizer sees a leaked block as unreachable */
+#ifdef VF_NATIVE
+#define VF_FORGET(p)        ((p) = 0)
+#else
+#define VF_FORGET(p)        ((void) 0)
+#endif
+
 /* always reached at the end of a harness: the vacuity witness */
 #define VF_END()            VF_COVER(1, "end")
 
